@@ -700,6 +700,9 @@ def run(ctx, res):
     rule_arms(ctx, res, d)
     rule_one_reply(ctx, res, d)
     rule_families(ctx, res)
+    # .. and the families asked for are what the `want` list says (a repeated or unknown entry changes nothing)
+    from . import c13
+    c13.rule_want_decode(ctx, res)
     rule_reply_only_here(ctx, res, d)
     rule_error_codes(ctx, res, d)
     rule_read_only(ctx, res, d)
